@@ -613,7 +613,7 @@ def inject_error(rng, spec, kind):
         for fname, f in spec['files'].items():
             for part, pd in f['parts'].items():
                 for u in pd.get('uses', []):
-                    if not u.get('as') and u.get('file') and u['file'] != fname:
+                    if not u.get('as') and u.get('file') and u['file'] != fname and fname in spec['fnames']:
                         own = [s for s in pd.get('tasks', [])]
                         k = spec['fnames'].index(fname)
                         ts = [t for t in spec['modules'][k]['tasks'] if not t.get('abstract')]
